@@ -24,6 +24,7 @@ def render_board(cfg):
             o.append("    features:")
             for n, v in b["features"]:
                 o.append("      - number: %s" % hx(n)); o.append("        value: %s" % hx(v))
+    if len(o) == 1: o = ["boards: []"]
     return "\n".join(o) + "\n"
 
 def _aspects(o, asp, ind):
